@@ -1099,6 +1099,75 @@ pub fn program(p: &mut Prng) -> String {
     Gen::new(p).program()
 }
 
+pub const WORD_MARKER: &str = "// word size";
+
+/// Small programs around what depends on the machine word if the compiler is careless: 64-bit
+/// literals above 2^32, `usize` values, shifts by constants, array indices, ranges, enum tags.
+pub fn word_program(p: &mut Prng) -> String {
+    let big = *p.pick(&["4294967296", "4294967297", "5000000000", "1099511627776", "9223372036854775807", "18446744073709551615", "4294967295"]);
+    let body = match p.below(9) {
+        // redundancy: what the library's DEFAULT options (duplicate gates optimised) decide
+        7 => "pub fn main(x: u8, y: u8) -> (u8, u8) {\n    (x + y, y + x)\n}".to_string(),
+        8 => "pub fn main(x: u16, y: u16, c: bool) -> u16 {\n    let a = x ^ y;\n    let b = y ^ x;\n    if c { (a & x) + (x & b) } else { (a & y) + (b & y) }\n}".to_string(),
+        0 => format!("pub fn main(x: u64) -> u64 {{\n    x + {big}u64\n}}"),
+        1 => format!("pub fn main(x: u64, y: u64) -> bool {{\n    (x ^ {big}u64) > y\n}}"),
+        2 => format!("pub fn main(x: i64) -> i64 {{\n    x - {}i64\n}}", if big.len() > 19 || big == "18446744073709551615" { "9223372036854775807" } else { big }),
+        3 => "pub fn main(x: u64) -> u64 {\n    (x >> 33u8) ^ (x << 40u8)\n}".to_string(),
+        4 => "pub fn main(x: usize, y: usize) -> usize {\n    x + y + 4000000000usize\n}".to_string(),
+        5 => format!("enum E {{\n    A,\n    B(u64),\n    C,\n}}\n\npub fn main(x: u64, c: bool) -> u64 {{\n    let e = if c {{ E::B(x) }} else {{ E::C }};\n    match e {{\n        E::A => 0u64,\n        E::B(v) => v ^ {big}u64,\n        E::C => {big}u64,\n    }}\n}}"),
+        _ => format!("pub fn main(x: u64) -> u64 {{\n    match x {{\n        {big}u64 => 1u64,\n        0u64..4294967296u64 => 2u64,\n        _ => x,\n    }}\n}}"),
+    };
+    format!("{WORD_MARKER}\n{body}\n")
+}
+
+/// Output layouts: a chain of m one-gate `let`s and a tuple of n of them as the result, chosen so
+/// that the result wires are exactly the circuit's last wires in order, or *nearly* so (one of
+/// the middle ones computed earlier, two swapped, reversed, rotated, one repeated): what the
+/// exporter's renumbering (and any shortcut around it) has to get right.
+pub fn layout_program(p: &mut Prng) -> String {
+    let n = p.range(3, 6) as usize;
+    let m = n + p.below(5) as usize;
+    let ins = ["a", "b", "c", "d"];
+    let mut out = String::from("pub fn main(a: bool, b: bool, c: bool, d: bool) -> (");
+    out.push_str(&vec!["bool"; n].join(", "));
+    out.push_str(") {\n");
+    for i in 0..m {
+        let op = if (i + p.below(2) as usize) % 2 == 0 { "^" } else { "&" };
+        if i == 0 {
+            out.push_str(&format!("    let v0 = a {op} b;\n"));
+        } else {
+            let other = if i >= 2 && p.chance(1, 3) { format!("v{}", p.usize_below(i - 1)) } else { ins[(i + 1) % 4].to_string() };
+            out.push_str(&format!("    let v{i} = v{} {op} {other};\n", i - 1));
+        }
+    }
+    let tail: Vec<usize> = (m - n..m).collect();
+    let mut o = tail.clone();
+    match p.below(7) {
+        0 => {}
+        1 if m > n => {
+            let k = 1 + p.usize_below(n - 2);
+            o[k] = p.usize_below(m - n);
+        }
+        2 if n >= 4 => {
+            let k = 1 + p.usize_below(n - 3);
+            o.swap(k, k + 1);
+        }
+        3 => o.reverse(),
+        4 => o.rotate_left(1),
+        5 => {
+            let k = 1 + p.usize_below(n - 2);
+            o[k] = o[n - 1];
+        }
+        _ => {
+            for x in o.iter_mut().take(n - 1) {
+                *x = p.usize_below(m);
+            }
+        }
+    }
+    out.push_str(&format!("    ({})\n}}\n", o.iter().map(|i| format!("v{i}")).collect::<Vec<_>>().join(", ")));
+    out
+}
+
 /// One *count* of the program blown up to 65..260 (a scope with that many bindings, that many
 /// functions, struct fields, constants, enum variants and match arms, parameters): whatever the
 /// compiler does differently "from N items on" happens here.
